@@ -100,6 +100,10 @@ QLawsEvOK(e) ==
     /\ LawsOn(e, e.perm)
     \* invariance under permutation of the lane (all strategies)
     /\ \A s \in STRATS : e.perm[s] = e.res[s]
+    \* ... in particular under the permutation left behind by earlier calls on the same object (any strategy, any q),
+    \* and for the NaN-skipping form on an object that holds the same values plus NaNs
+    /\ NoFailure(e.seq) /\ \A s \in STRATS : e.seq[s] = e.res[s]
+    /\ NoFailure(e.skip) /\ \A s \in STRATS : e.skip[s] = e.res[s]
     \* selecting strategies commute with a strictly increasing relabelling (ranks are unchanged)
     /\ \A s \in {"lower", "higher", "nearest"} : e.rel[s] = e.res[s]
 
